@@ -2,4 +2,5 @@ SPECIFICATION SpecReplay
 CONSTANTS
  Scripts <- ScriptSet
  StrictCmdline <- StrictFromEnv
+ FirstRunReadsCmdline <- FirstRunFromEnv
 CHECK_DEADLOCK FALSE
